@@ -948,13 +948,24 @@ pub fn worker(a: &Args) -> i32 {
             };
             let mut k = 0u64;
             'outer: for &len in &lens {
-                for variant in 0..8u64 {
+                for variant in 0..16u64 {
                     k += 1;
                     if k % workers != worker {
                         continue;
                     }
-                    let filler = if variant >= 6 { "\u{e9}" } else { "x" };
-                    let (a0, b0) = (name(0, len, filler), name(1, len, filler));
+                    // fillers of 1, 2, 3 and 4 bytes: whatever cuts or measures a name at a fixed
+                    // byte offset lands inside a character for some of them
+                    let filler = match variant {
+                        6 | 7 | 9 | 12 | 13 => "\u{e9}",
+                        10 | 14 => "\u{20ac}",
+                        11 | 15 => "\u{1f345}",
+                        _ => "x",
+                    };
+                    let (mut a0, b0) = (name(0, len, filler), name(1, len, filler));
+                    if matches!(variant, 12 | 15) && len > 2 {
+                        // a two-byte ASCII head shifts every character boundary by one
+                        a0 = format!("a{}", name(0, len - 1, filler));
+                    }
                     // same head, different tail / middle (NOT duplicates of a0)
                     let mut tail = a0.clone();
                     if tail.pop().is_some() {
@@ -970,9 +981,13 @@ pub fn worker(a: &Args) -> i32 {
                     }
                     let mid: String = mid.into_iter().collect();
                     let text = match variant {
-                        0 | 6 => format!("[c0]\n{a0}\n{b0}\n{a0}\n"),
+                        0 | 6 | 14 => format!("[c0]\n{a0}\n{b0}\n{a0}\n"),
                         1 => format!("[c0]\n{a0}|{b0}\n[c1]\n{b0}2|{a0}\n"),
-                        2 | 7 => format!("[{a0}]\nk\n[{b0}]\n[{a0}]\n"),
+                        2 | 7 | 15 => format!("[{a0}]\nk\n[{b0}]\n[{a0}]\n"),
+                        // the other error paths with a long offending token: `|` inside a header,
+                        // an ingredient line before any category
+                        8..=12 => format!("[{a0}|b]\nk\n"),
+                        13 => format!("{a0}|{b0}\n[c]\nk\n"),
                         3 => format!("[c0]\n{a0}\n{tail}\n{mid}\n{b0}\n"),
                         4 => format!("[{a0}]\n[{tail}]\nk\n[{mid}]\n"),
                         // a name equal to a category name is not a duplicate
